@@ -122,6 +122,15 @@ def case_strategy(draw):
     L = body.L if np.isfinite(body.L) and body.L > 0 else 1.0
     n = draw(st.sampled_from(BATCHES))
     obs = []
+    if draw(st.integers(0, 5)) == 0 and isinstance(body, (geom.Polyhedron, geom.CylSeg)) and not getattr(body, "full", False):
+        # corner sweep: every vertex of the body exactly (a random pick rarely visits the one corner that matters)
+        nv = len(body.V) if isinstance(body, geom.Polyhedron) else 8
+        for k in range(min(nv, 16)):
+            r = body.vertex_point([(k + 0.5) / nv] + [0.5] * 7)
+            if r is not None:
+                obs.append({"base": "on_corner", "detail": "vertex_sweep", "offset": "0", "local": [float(x) for x in r[0]]})
+        if obs:
+            return {"source": spec, "observers": obs}
     for _ in range(n):
         base = draw(st.sampled_from(BASES))
         u = draw(gen.uniforms(8))
@@ -225,17 +234,22 @@ def _allowed_singular(spec, body, p_local):
 def _offset_class(off, t_rel, identity, on_body=False):
     """by the actual distance t (relative to L) of the observer from its nearest special set, prolongations included:
     exact_on_body / exact_prolongation: on the set in an identity pose (the library sees the same coordinates), on the
-    body's own surface or on the prolongation of one of its special sets; tiny: 0 < t <= 1e-8 (also: on the set
-    through a generic pose, i.e. within rounding); small: 1e-8 < t; far: ladder value >= 1e3 L"""
+    body's own surface or on the prolongation of one of its special sets; tiny: 0 < t <= 1e-7 (also: on the set
+    through a generic pose, i.e. within rounding); on_body_within_rounding: on the body's own surface to 1e-14 L and not tiny from any other set; small: 1e-7 < t; far: ladder value >= 1e3 L"""
     if off == "far":
         return "far"
     ts = t_rel if isinstance(t_rel, list) else [t_rel]
-    if any(0.0 < t <= 1e-8 for t in ts):
+    if on_body and all(t <= 1e-14 or t > 1e-7 for t in ts) and any(0.0 < t <= 1e-14 for t in ts):
+        # on the body's own surface within rounding (a corner of a CylinderSegment has no exact floating-point
+        # coordinates) and not a tiny-but-resolvable distance from any special set: the library's surface masks
+        # (relative 1e-12..1e-15) are documented to return 0 there
+        return "on_body_within_rounding"
+    if any(0.0 < t <= 1e-7 for t in ts):
         return "tiny"  # a tiny non-zero distance from at least one special set (e.g. on a face, 1e-14 L from an edge line)
     if any(t == 0.0 for t in ts):
         if not identity:
             return "tiny"
-        return "exact_on_body" if on_body else "exact_prolongation"
+        return "exact_on_body" if on_body is True else "exact_prolongation"
     return "small"
 
 
@@ -296,7 +310,8 @@ def run_case(case, ctx):
                 tsp, tname = geom.special_dist(body, loc[i][None], with_name=True)
                 out.append(Violation({**sig0, "sub": "nonfinite", "field": X if X in "BH" else "JM", "base": o["base"],
                                       "offset_class": _offset_class(o["offset"], [float(v[0]) / body.L for v in geom.special_dist(body, loc[i][None], all_sets=True).values()], identity,
-                                                                    float(body.dist(loc[i][None])[0]) == 0.0),
+                                                                    True if float(body.dist(loc[i][None])[0]) == 0.0 else
+                                                                    ("rounded" if float(body.dist(loc[i][None])[0]) <= 1e-14 * body.L else False)),
                                       "near": tname[0]},
                                      f"{cls} get{X} = {F.reshape(n, 3)[i].tolist()} at local {loc[i].tolist()} (base {o['base']} {o.get('detail', '')}, "
                                      f"offset {o['offset']}, nearest special set {tname[0]} at {float(tsp[0]) / body.L:.3g} L, batch {n})",
